@@ -12,8 +12,10 @@ import (
 	"net/http"
 	"reflect"
 	"strings"
+	"time"
 
 	"github.com/gookit/rux"
+	"github.com/gookit/rux/pkg/handlers"
 	"github.com/gookit/rux/pkg/render"
 )
 
@@ -48,8 +50,8 @@ type rvValue struct {
 	Desc        string
 	V           any
 	JSONOK      bool
-	XMLOK       bool // round-trips through XML (checked by decoding)
-	XMLFail     bool // encoding/xml refuses the value (maps, channels, functions)
+	XMLOK       bool       // round-trips through XML (checked by decoding)
+	XMLFail     bool       // encoding/xml refuses the value (maps, channels, functions)
 	NewXMLProbe func() any // pointer to decode XML into
 }
 
@@ -423,7 +425,7 @@ func genCall(r *rand.Rand) c19Call {
 	default:
 		// render.Auto: content negotiation
 		v := genValue(r)
-		firstFails := chance(r, 1, 4) // the first supported type cannot encode the value: the failure must be reported
+		firstFails := chance(r, 1, 4)                // the first supported type cannot encode the value: the failure must be reported
 		for !firstFails && (!v.JSONOK || !v.XMLOK) { // a value every supported format can carry
 			v = genValue(r)
 		}
@@ -501,7 +503,7 @@ func genCall(r *rand.Rand) c19Call {
 }
 
 func runC19(e *Env) {
-	e.Rule = "short histories (3..8 calls on one router, so that a failed encoding is followed by a successful one) of response helper calls: Context.Text/HTML/HTMLString/JSON/JSONBytes/JSONP/XML/Blob/Stream/NoContent/Redirect/HTTPError and pkg/render JSON/JSONIndented/JSONRenderer/JSONP/XML/XMLPretty/XMLRenderer/Text/HTML/Blob/Auto; statuses from {-1,0,100,...,599,600,701,999}; request methods GET, POST, PUT and HEAD (through the GET route); values: strings with HTML/unicode/control characters, nested maps, structs, byte slices and unencodable values (chan, func, NaN, map holding a channel); Stream readers with and without WriteTo, one-byte reads and a failing reader; preset or absent Content-Type; Accept lists with q-parameters, blanks, unsupported types (incl. text/html, for which Auto has no renderer, anywhere in the list). Oracle: recorded status == given (200 for <= 0), Content-Type == documented constant (or the preset one where the documentation says it is preserved), body decodes with an independent decoder to the given value, Auto renders the first supported type, encoding failures surface in c.Errors / the returned error and never panic. Non-trivial: every call; distinct by call description. Stream sources also include partly consumed strings/bytes readers and a SectionReader; an announced Content-Length must equal the delivered body length."
+	e.Rule = "short histories (3..8 calls on one router, so that a failed encoding is followed by a successful one) of response helper calls: Context.Text/HTML/HTMLString/JSON/JSONBytes/JSONP/XML/Blob/Stream/NoContent/Redirect/HTTPError and pkg/render JSON/JSONIndented/JSONRenderer/JSONP/XML/XMLPretty/XMLRenderer/Text/HTML/Blob/Auto; statuses from {-1,0,100,...,599,600,701,999}; request methods GET, POST, PUT and HEAD (through the GET route); a third of the calls run behind pkg/handlers.Timeout(1h); values: strings with HTML/unicode/control characters, nested maps, structs, byte slices and unencodable values (chan, func, NaN, map holding a channel); Stream readers with and without WriteTo, one-byte reads and a failing reader; preset or absent Content-Type; Accept lists with q-parameters, blanks, unsupported types (incl. text/html, for which Auto has no renderer, anywhere in the list). Oracle: recorded status == given (200 for <= 0), Content-Type == documented constant (or the preset one where the documentation says it is preserved), body decodes with an independent decoder to the given value, Auto renders the first supported type, encoding failures surface in c.Errors / the returned error and never panic. Non-trivial: every call; distinct by call description. Stream sources also include partly consumed strings/bytes readers and a SectionReader; an announced Content-Length must equal the delivered body length."
 	e.Assumptions = []string{
 		"values compared after decoding with encoding/json / encoding/xml (numbers as float64)",
 		"XML strings restricted to characters XML can carry",
@@ -527,6 +529,12 @@ func runC19(e *Env) {
 			router := rux.New()
 			if chance(r, 1, 3) {
 				router.OnError = func(c *rux.Context) {} // a hook that only logs
+			}
+			if chance(r, 1, 3) {
+				// the stock deadline middleware in front (its deadline never passes): it must leave the helpers' status alone
+				router.Use(handlers.Timeout(time.Hour))
+				call.Desc += " [behind handlers.Timeout(1h)]"
+				descs[len(descs)-1] = call.Desc
 			}
 			var retErr error
 			var ctxErrs int
